@@ -25,6 +25,7 @@ KINDS = [
     'fn down(n) {\n    if n == 0 {\n        return 1 + ""\n    }\n    return down(n - 1)\n}\nprint(down(3))', 'fn ping(n) {\n    if n == 0 {\n        return nope\n    }\n    return pong(n - 1)\n}\nfn pong(n) {\n    return ping(n)\n}\nprint(ping(2))',
     'print(1)\nprint([1, "two", "\xc3\xa9"[0], 4])', 'print(2)\nprint({"a": [1], "b": "\xc3\xa9"[1]})',
     'print($"a${1 +}b")', 'print($"${)}")', 'print($"${1 ` 2}")',
+    'print($"a${}b")', 'print($"a${ }b")', 'print($"x${1 +\n}y")', 'print($"x${two(1,\n2)\n}y")', 'print($"${# c\n}")',
     'for [i, v] in nope {\n    print(v)\n}', 'for e in obj.zz {\n    print(e)\n}', 'for e in two(1) {\n    print(e)\n}', 'for e in lst[7] {\n    print(e)\n}', 'while nope {\n    print(1)\n}', 'if lst[9] {\n    print(1)\n}',
 ]
 HEAD = ['lst := [1, 2]', 'obj := {"a": 1, "f": fn (v) {', '    return v', '}}', 'fn two(a, b) {', '    return a', '}', 'fn rest1(a, ..r) {', '    return a', '}']
